@@ -79,7 +79,7 @@ func c20Bins() (string, error) {
 	d := filepath.Join(core.WorkDir(), "fs", fmt.Sprintf("c20bin-%d", os.Getpid()))
 	os.MkdirAll(d, 0o755)
 	bin := filepath.Join(core.WorkDir(), "bin")
-	for _, l := range [][2]string{{"standin", "rec"}, {"standin", "kubectl"}, {"bklb", "recb"}, {"kubectl-bkl", "kubectl-bkl"}} {
+	for _, l := range [][2]string{{"standin", "rec"}, {"standin", "kubectl"}, {"standin", "stub"}, {"bklb", "recb"}, {"bklb", "stubb"}, {"kubectl-bkl", "kubectl-bkl"}} {
 		os.Remove(filepath.Join(d, l[1]))
 		if err := os.Symlink(filepath.Join(bin, l[0]), filepath.Join(d, l[1])); err != nil {
 			return "", err
@@ -270,7 +270,7 @@ func buildC20(tier string) *core.Plan {
 		}
 	}
 	all := append(vecs, long...)
-	invs := []string{"recb", "kubectl-bkl"}
+	invs := []string{"recb", "kubectl-bkl", "stubb"}
 	desc := func(v []int) []string {
 		var s []string
 		for _, k := range v {
@@ -281,8 +281,18 @@ func buildC20(tier string) *core.Plan {
 	sp := core.Space{Name: "argv-vectors", N: int64(len(all)) * 2,
 		Desc: func(i int64) any { return map[string]any{"invoked_as": invs[i%2], "args": desc(all[i/2])} },
 		Run:  func(c *core.Ctx, i int64) { c20Run(c, invs[i%2], all[i/2]) }}
+	// a wrapped tool whose own name ends in "b" (stubb wraps stub): short vectors only
+	var short [][]int
+	for _, v := range all {
+		if len(v) <= 2 {
+			short = append(short, v)
+		}
+	}
+	spB := core.Space{Name: "tool-name-ending-in-b", N: int64(len(short)),
+		Desc: func(i int64) any { return map[string]any{"invoked_as": "stubb", "args": desc(short[i])} },
+		Run:  func(c *core.Ctx, i int64) { c20Run(c, "stubb", short[i]) }}
 	return &core.Plan{
-		Spaces: []core.Space{sp},
+		Spaces: []core.Space{sp, spB},
 		Rule: "every argument vector of length 0..max over 18 argument kinds (short flag, --opt=value, --opt=file.yaml, word, -, existing non-bkl file, existing layer file, virtual name of another format, unsupported extension, layer whose evaluation fails, multi-document layer requested as TOML, missing .yaml name), " +
 			"and vectors of length 5-8 of flags with one (thorough: two) non-flag argument(s) at every position; each invoked as recb (symlink to bklb) and as kubectl-bkl, with a recording stand-in on PATH",
 		Assumptions: []string{"the stand-in records argv and the content of every argument naming a regular file; file-argument content is parsed with encoding/json, yaml.v3 and go-toml called directly and compared with the known evaluated layers"},
